@@ -236,6 +236,13 @@ def dispatch(vm, m, callee, args):
             else: outs.append((m2, 'ret', NONE()))
         return outs
     # ---- Box ----------------------------------------------------------------------------------------
+    if re.match(r'^Box::<.*>::new_uninit$', c):
+        # MaybeUninit<T> { uninit: (), value: ManuallyDrop<T> { value: MaybeDangling<T>(T) } } - the vec![] expansion writes through (*p).1.0.0
+        cell = m.alloc(Struct((UNIT, Struct((Struct((Opaque('uninit'),), 'MaybeDangling'),), 'ManuallyDrop')), 'MaybeUninit'))
+        return ret(m, Struct((Struct((Ref(cell),)), UNIT), 'Box'))
+    if re.match(r'^std::boxed::box_assume_init_into_vec_unsafe::<', c) or re.match(r'^(alloc|std)::boxed::box_assume_init_into_vec', c):
+        r = args[0].f[0].f[0]; v = vm.read_at(m, r.cell, r.path)
+        return ret(m, v.f[1].f[0].f[0])
     if re.match(r'^Box::<.*>::new$', c):
         cell = m.alloc(args[0]); return ret(m, Struct((Struct((Ref(cell),)), UNIT), 'Box'))
     # ---- Vec / slices ---------------------------------------------------------------------------------
@@ -299,7 +306,7 @@ def _vec(vm, m, c, args):
             s = slice_refs(vm, m, r); return ret(m, SOME(s[-1]) if s else NONE())
         raise Unmodelled('Vec method ' + c)
     if re.match(r'^<Vec<.*> as Deref(Mut)?>::deref(_mut)?$', c): return ret(m, as_slice(vm, m, args[0]))
-    if re.match(r'^<Vec<.*> as Clone>::clone$', c) or re.match(r'^<\[.*\] as ToOwned>::to_owned$', c) or re.match(r'^(core::)?slice::<impl \[.*\]>::to_vec$', c):
+    if re.match(r'^<Vec<.*> as Clone>::clone$', c) or re.match(r'^<\[.*\] as ToOwned>::to_owned$', c) or re.match(r'^(core::|std::)?slice::<impl \[.*\]>::(to_vec|into_vec)(::<.*>)?$', c):
         return ret(m, Seq(slice_items(vm, m, args[0])))
     if re.match(r'^<Vec<.*> as Extend<.*>>::extend::<Vec<.*>>$', c):
         r = args[0]; s = vm.read_at(m, r.cell, r.path); vm.write_at(m, r.cell, list(r.path), Seq(s.items + tuple(args[1].items))); return ret(m, UNIT)
@@ -309,7 +316,7 @@ def _vec(vm, m, c, args):
         if is_sym(i): raise Unmodelled('symbolic Vec index')
         if i >= len(refs): return panic(m, ('index out of bounds', (i, len(refs)), None))
         return ret(m, refs[i])
-    mm = re.match(r'^(?:core::)?slice::<impl \[.*?\]>::(\w+)(::<.*>)?$', c)
+    mm = re.match(r'^(?:core::|std::)?slice::<impl \[.*?\]>::(\w+)(::<.*>)?$', c)
     if mm:
         n = mm.group(1)
         if n == 'len': return ret(m, as_slice(vm, m, args[0]).count)
